@@ -4,6 +4,7 @@ import math
 from fractions import Fraction
 
 import numpy as np
+from astropy import units as u
 
 import common as C
 import pipegen as G
@@ -74,6 +75,19 @@ def impl(case):
     nin = G.nin(case["trs"][0])
     det = G.frame_obj("detector", nin)
     out = cf.CoordinateFrame(naxes=nout, axes_type=tuple(t.upper() for t in case["axes_type"]), axes_order=tuple(range(nout)), name="world")
+    if case.get("real_frames"):
+        # the package's own frame classes, one per output axis (a TemporalFrame calls its axis type 'TIME'; the documented name is 'temporal')
+        from astropy import time as _time
+        subs = []
+        for i, t in enumerate(case["axes_type"]):
+            if t == "spectral":
+                subs.append(cf.SpectralFrame(unit=u.um, axes_order=(i,), name="spec%d" % i))
+            elif t == "temporal":
+                subs.append(cf.TemporalFrame(_time.Time("2020-01-01T00:00:00"), unit=u.s, axes_order=(i,), name="time%d" % i))
+            else:
+                subs.append(cf.CoordinateFrame(naxes=1, axes_type=(t.upper(),), axes_order=(i,), unit=(u.m,), name="ax%d" % i,
+                                               axes_names=("a%d" % i,), axis_physical_types=("custom:a%d" % i,)))
+        out = subs[0] if nout == 1 else cf.CompositeFrame(subs, name="world")
     mids = [G.frame_obj("mid%d" % i, 1) for i in range(len(case["trs"]) - 2)]
     frames = [det] + mids + [out]
     built = [None if t is None else G.build(t) for t in case["trs"]]
@@ -86,10 +100,13 @@ def impl(case):
         if case["own"] is not None:
             b = _bb_arg(case["own"])
             w.bounding_box = b[0] if len(b) == 1 else b
-    kw = {"center": case["center"], "axis_type": case["axis_type"]}
+    # the type may be spelled as the frames report it ('SPATIAL') or capitalised: the comparison ignores case
+    spell = {"upper": str.upper, "title": str.title}.get(case.get("spelling"), lambda x: x)
+    kw = {"center": case["center"], "axis_type": spell(case["axis_type"])}
     if case["bb"] is not None:
         b = _bb_arg(case["bb"])
-        kw["bounding_box"] = b
+        # a 1-D box may be passed the way the WCS's own box is assigned: (start, stop)
+        kw["bounding_box"] = b[0] if (len(b) == 1 and case.get("flat_bb")) else b
     try:
         r = np.asarray(w.footprint(**kw))
     except Exception as e:
@@ -312,4 +329,4 @@ def gen(rng, tier):
         own = box() if rng.random() < 0.75 else None
         bb = box() if rng.random() < 0.45 else None
         yield {"kind": "footprint", "trs": trs, "dims": dims, "axes_type": types, "own": own, "own_on_model": rng.random() < 0.35, "bb": bb, "center": rng.random() < 0.5,
-               "axis_type": rng.choice(["all", "all", "spatial", "spectral", "temporal", "custom"])}
+               "axis_type": rng.choice(["all", "all", "spatial", "spectral", "temporal", "custom"]), "spelling": rng.choice([None, None, "upper", "title"]), "real_frames": rng.random() < 0.4, "flat_bb": rng.random() < 0.5}
